@@ -161,7 +161,7 @@ def run(repo: Repo, rep: Report) -> None:
     # ------------------------------------------------------------------ (c)
     rep.rule("C07.c-pickle-covers-eq-fields",
              "__reduce__ of URIRef/BNode/Variable rebuilds from str(self); Literal.__reduce__ passes the lexical form, language and datatype; "
-             "Literal.__getstate__ and __setstate__ use the same keys and restore the fields __eq__ compares", floor=5)
+             "Literal.__getstate__ and __setstate__ use the same keys and restore the fields __eq__ compares", floor=6)
     for cname in ("URIRef", "BNode", "Variable"):
         f = tm.methods(cname).get("__reduce__")
         if f is None:
@@ -174,11 +174,28 @@ def run(repo: Repo, rep: Report) -> None:
     args = [norm(e) for e in r.elts[1].elts] if isinstance(r, ast.Tuple) and isinstance(r.elts[1], ast.Tuple) else []
     ok = norm(r.elts[0]) == "Literal" and args[:1] == ["str(self)"] and any("language" in a for a in args) and any("datatype" in a for a in args)
     rep.ob("C07.c-pickle-covers-eq-fields", tm, "Literal.__reduce__", norm(r), ok, "lexical form, language and datatype" if ok else "Literal.__reduce__ drops a field that __eq__ compares: %s" % args, node=lm["__reduce__"])
-    # positional meaning: Literal.__new__(cls, lexical_or_value, lang, datatype, ...)
-    newp = [a.arg for a in lm["__new__"].args.args[1:4]]
-    okp = len(args) == 3 and "language" in args[1] and "datatype" in args[2] and newp[1:3] == ["lang", "datatype"]
-    rep.ob("C07.c-pickle-covers-eq-fields", tm, "Literal.__reduce__", "argument order matches Literal.__new__%s" % newp, okp,
+    # positional meaning: Literal.__new__(cls, lexical_or_value, lang, datatype, normalize, ...)
+    newp = [a.arg for a in lm["__new__"].args.args[1:]]
+    want = {"lexical_or_value": "str(self)", "lang": "self.language", "datatype": "self.datatype"}
+    rargs = list(r.elts[1].elts) if isinstance(r, ast.Tuple) and isinstance(r.elts[1], ast.Tuple) else []
+    okp = 3 <= len(rargs) <= len(newp)
+    for prm, a in zip(newp, rargs):
+        if prm in want:
+            okp = okp and norm(a) == want[prm]
+        else:
+            okp = okp and isinstance(a, ast.Constant)  # an option of the constructor, not a field of the term
+    rep.ob("C07.c-pickle-covers-eq-fields", tm, "Literal.__reduce__", "argument order matches Literal.__new__%s" % newp[:len(rargs)], okp,
            "" if okp else "the reduce tuple %s does not line up with Literal.__new__'s parameters %s" % (args, newp), node=lm["__reduce__"])
+    # the constructor normalises the lexical form by default (normalize=None -> rdflib.NORMALIZE_LITERALS): a copy built from
+    # str(self) is the same term only if the reduce tuple switches that off (the stored form may be one that normalisation
+    # would rewrite: Literal(1, datatype=XSD.double) is "1", normalize=False literals, ill-typed forms)
+    if "normalize" in newp:
+        i = newp.index("normalize")
+        a = rargs[i] if i < len(rargs) else None
+        okn = isinstance(a, ast.Constant) and a.value is False
+        rep.ob("C07.c-pickle-covers-eq-fields", tm, "Literal.__reduce__", "rebuilds with normalize=False", okn,
+               "" if okn else "Literal.__reduce__ rebuilds through the normalising constructor (normalize is %s): pickle/copy/deepcopy of a literal whose stored lexical form "
+               "is not the canonical one gives a different term" % ("left to the default" if a is None else norm(a)), node=lm["__reduce__"])
     gs = [x for x in own_nodes(lm["__getstate__"]) if isinstance(x, ast.Return)][0].value
     gkeys = set()
     for c in ast.walk(gs):
